@@ -25,7 +25,7 @@ from typing import Dict, List, Optional, Set, Tuple
 
 from asl.absint import UNKNOWN as UNKNOWN_, AbsEval, Machine
 from asl.cfg import Node, cfg_of
-from asl.flow import node_defs, reaching
+from asl.flow import find_path, node_defs, reaching
 from asl.loader import AnalysisError, Unit, norm, own_nodes
 from asl.values import USERISH, Val, roles_of_annotation
 from .common import make_resolver, real_units, uncast, uncast_deep
@@ -49,6 +49,7 @@ LEVEL["decided"] += ' (R03.10) no attribute a user callable need not have is rea
 LEVEL["decided"] += " (R03.11) no __aexit__ hands back what the source's aclose() returned (R06.3, shared); (R03.12) the truth value of a callable argument is never taken; (R03.13) awaitify's wrappers pass *args and **kwargs on unchanged."
 LEVEL["decided"] += " (R03.14) a user's callable is never handed to a synchronous higher-order function of the standard library; (R03.15) the internal borrow wraps every flavour of source alike (R07.4, shared); R03.2 also covers isinstance / len tests on the elements of a *iterables parameter."
 LEVEL["decided"] += ' R03.13 also: the wrappers take `self` positional-only (a keyword argument named self belongs to the wrapped callable); R03.3 answers questions about objects derived from the callable (what it wraps, its attributes) against the answer for the callable itself, and evaluates the synchronous wrapper for two kinds of source (8 cells).'
+LEVEL["decided"] += ' (R03.16) an iterable argument is converted into an iterator once (a re-iterable flavour would start over); R03.2 also reports len() / length_hint() of an iterable parameter; R03.7 also: nothing observable happens between calling an awaitified callable and awaiting its result (also for awaitified callables kept in a field).'
 
 # raw calls of user objects that are correct by documented contract (unit -> reason)
 BY_CONTRACT = {
